@@ -177,16 +177,14 @@ def do_replay(prop: str, path: str) -> int:
         print("outcome recorded:", case.get("outcome"), "at step", case.get("step"))
         bytepipe.replay(case)
         return 0
-<<<<<<< HEAD
     if "multi" in case:
         # several gateways alive in one process (C05): re-executed on the implementation
         from .props import multigw
         multigw.replay(case)
-=======
+        return 0
     if "interference" in case:
         from .props import codec_interference
         codec_interference.replay(case)
->>>>>>> 29fe243f290f67ffc2119647dd4d96d876846f23
         return 0
     print(json.dumps(case, indent=1, default=str)[:4000])
     print("(this engine's cases are replayed by re-running the check: the corpus and the seed reproduce them)")
